@@ -4,6 +4,7 @@ package dna
 
 import (
 	"errors"
+	"math"
 
 	"github.com/evolbioinfo/goalign/align"
 )
@@ -106,6 +107,7 @@ func H_C08_sched_undefined() {
 type vfWideStub struct {
 	failPairI, failPairJ int
 	sticky               bool
+	undefined            bool // every pair is saturated: +Inf
 }
 
 func (m *vfWideStub) InitModel(al align.Alignment, weights []float64, gamma bool, alpha float64) error {
@@ -119,6 +121,9 @@ func (m *vfWideStub) Distance(s1, s2 []uint8, w []float64) (float64, error) {
 	}
 	if (i == m.failPairI && j == m.failPairJ) || (m.sticky && (i > m.failPairI || (i == m.failPairI && j >= m.failPairJ))) {
 		return 0, errors.New("model evaluation failed")
+	}
+	if m.undefined {
+		return math.Inf(1), nil
 	}
 	return float64(i+j) / 64, nil
 }
@@ -168,6 +173,27 @@ func H_C08_backlog_matrix() {
 				verifAssert(mat[i][j] == 0, "zero diagonal")
 			} else {
 				verifAssert(mat[i][j] == float64(i+j)/64, "entry is the model's distance")
+			}
+		}
+	}
+}
+
+// H_C08_backlog_undefined: more undefined (saturated) pairs than any internal buffer holds: the call returns, every off-diagonal entry carries the common substitute.
+// bounds: 15 one-column rows, all 105 pairs at +Inf, cpus in {1,2,3}, default schedule, deadlock detection on
+// outside: other schedules for this size
+//verif: race=1
+func H_C08_backlog_undefined() {
+	cpus := nondetRange(1, 3)
+	m := &vfWideStub{failPairI: -1, failPairJ: -1, undefined: true}
+	mat, err := DistMatrix(vfManyRows(15), nil, m, -1, -1, -1, -1, false, 0, cpus)
+	verifReach("returned")
+	verifAssert(err == nil, "no error")
+	for i := 0; i < 15; i++ {
+		for j := 0; j < 15; j++ {
+			if i == j {
+				verifAssert(mat[i][j] == 0, "zero diagonal")
+			} else {
+				verifAssert(mat[i][j] == mat[0][1] && !(mat[i][j] < 0), "every undefined pair carries the same, non-negative substitute (or stays undefined)")
 			}
 		}
 	}
